@@ -73,6 +73,9 @@ def gen_segments(rng):
             items.append(("control", rng.choice(CONTROLS), None))
             continue
         text = S.free_string(rng, rng.choice([0, 1, 3, 8, 20]), w, space=0.15, newline=0.05)
+        if rng.random() < 0.08:
+            pos = rng.randint(0, len(text))
+            text = text[:pos] + rng.choice(G.HOSTILE_FRAGMENTS) + text[pos:]
         r = rng.random()
         if r < 0.2:
             rec = None
